@@ -500,3 +500,132 @@ func TestC14ParallelSharedSeq(t *testing.T) {
 		}
 	})
 }
+
+// ---- C14: the built-in range iterators are independent objects -----------------------------------------
+
+type anyIter interface {
+	MoveNext() bool
+	cur() string
+}
+
+type strIt struct {
+	it interface {
+		MoveNext() bool
+	}
+	get func() string
+}
+
+func (s strIt) MoveNext() bool { return s.it.MoveNext() }
+func (s strIt) cur() string    { return s.get() }
+
+func mkBuiltin(kind string, n int) anyIter {
+	switch kind {
+	case "string":
+		it := seq.NewStringIter(strings.Repeat("aé", n)[:n])
+		return strIt{it, func() string { return fmt.Sprint(it.Current().Key, it.Current().Val) }}
+	case "slice":
+		xs := make([]int, n)
+		for i := range xs {
+			xs[i] = i * 3
+		}
+		it := seq.NewSliceIter(xs)
+		return strIt{it, func() string { return fmt.Sprint(it.Current().Key, it.Current().Val) }}
+	case "int":
+		it := seq.NewIntegerIter(n)
+		return strIt{it, func() string { return fmt.Sprint(it.Current().Key) }}
+	case "chan":
+		ch := make(chan int, n)
+		for i := 0; i < n; i++ {
+			ch <- i + 100
+		}
+		close(ch)
+		it := seq.NewChanIter((<-chan int)(ch))
+		return strIt{it, func() string { return fmt.Sprint(it.Current().Key) }}
+	default:
+		m := map[int]int{}
+		for i := 0; i < n && i < 1; i++ {
+			m[i] = i + 7
+		}
+		it := seq.NewMapIter(m)
+		return strIt{it, func() string { return fmt.Sprint(it.Current().Key, it.Current().Val) }}
+	}
+}
+
+// an exhausted built-in iterator is not advanced again (compiled loops never do; the property claims nothing there)
+func drainSteps(it anyIter, steps int) (out []string) {
+	done := false
+	for i := 0; i < steps; i++ {
+		if !done && it.MoveNext() {
+			out = append(out, it.cur())
+		} else {
+			done = true
+			out = append(out, "end")
+		}
+	}
+	return
+}
+
+func TestC14BuiltinIterators(t *testing.T) {
+	c := coll("C14")
+	c.rule("k<=3 live built-in range iterators (string, slice, int, chan, map; same kind twice in half of the tuples) under all interleavings of 4 (k=2) / 3 (k=3) advances each, including advances after exhaustion; each must produce what it produces alone")
+	var last *Replay
+	defer func() {
+		if last != nil {
+			violation(t, last)
+		}
+	}()
+	kinds := []string{"string", "string", "slice", "int", "chan", "map"}
+	rapid.Check(t, func(rt *rapid.T) {
+		k := rapid.IntRange(2, 3).Draw(rt, "k")
+		m := 4
+		if k == 3 {
+			m = 3
+		}
+		var ks []string
+		var ns []int
+		first := rapid.SampledFrom(kinds).Draw(rt, "kind0")
+		for i := 0; i < k; i++ {
+			kind := first
+			if i > 0 && rapid.Bool().Draw(rt, fmt.Sprint("other", i)) {
+				kind = rapid.SampledFrom(kinds).Draw(rt, fmt.Sprint("kind", i))
+			}
+			ks = append(ks, kind)
+			ns = append(ns, rapid.IntRange(0, 4).Draw(rt, fmt.Sprint("n", i)))
+		}
+		var want [][]string
+		for i := range ks {
+			want = append(want, drainSteps(mkBuiltin(ks[i], ns[i]), m))
+		}
+		counts := make([]int, k)
+		for i := range counts {
+			counts[i] = m
+		}
+		schedules(counts, func(order []int) {
+			its := make([]anyIter, k)
+			got := make([][]string, k)
+			started := make([]bool, k)
+			done := make([]bool, k)
+			for _, i := range order {
+				if !started[i] {
+					// iterators are created lazily, at their first advance: creation interleaves too
+					its[i] = mkBuiltin(ks[i], ns[i])
+					started[i] = true
+				}
+				if !done[i] && its[i].MoveNext() {
+					got[i] = append(got[i], its[i].cur())
+				} else {
+					done[i] = true
+					got[i] = append(got[i], "end")
+				}
+			}
+			c.eval(fmt.Sprint("builtin", ks, ns, order), true, "builtin-iterators")
+			for i := range got {
+				if j, g, w := diff(got[i], want[i]); j >= 0 {
+					last = &Replay{Property: "C14", Kind: "builtin-iterators", Input: map[string]any{"kinds": ks, "sizes": ns, "schedule": append([]int{}, order...)},
+						What: fmt.Sprintf("built-in iterators %v (sizes %v) under schedule %v: iterator %d step %d is %q, alone it is %q", ks, ns, order, i, j, g, w), Got: got[i], Want: want[i]}
+					rt.Fatalf("%s", last.What)
+				}
+			}
+		})
+	})
+}
